@@ -1,6 +1,7 @@
 package main
 
 import (
+	"sort"
 	"fmt"
 	"go/token"
 	"go/types"
@@ -226,6 +227,7 @@ func runC09(p *Prog, l *Ledger) {
 	}
 	locks := p.Locksets()
 	wptr := types.NewPointer(r.W)
+	readyHelpers := map[*ssa.Function]bool{} // bool helpers whose 'true' guards a window close
 
 	// ---------------- O1 / O2 / O3 per windowing component
 	type site struct {
@@ -430,15 +432,21 @@ func runC09(p *Prog, l *Ledger) {
 					}
 				}
 			}
+			// readiness: 'count > window size' established on the path itself, or by a bool helper that returned true
+			// (the helper is checked below, once)
+			if c09HasGtrFact(p, r, pa, callStep) {
+				okReady = true
+			}
 			for _, fct := range pa.Facts {
 				if fct.Step >= callStep || !fct.True {
 					continue
 				}
 				if call, ok := fct.Cond.(*ssa.Call); ok {
 					cc := p.CallOf(call)
-					if cc.Static != nil && p.InModule(cc.Static) && cc.Static.Signature.Results().Len() == 1 {
+					if cc.Static != nil && p.InModule(cc.Static) && cc.Static.Blocks != nil && cc.Static.Signature.Results().Len() == 1 {
 						if b, ok := cc.Static.Signature.Results().At(0).Type().Underlying().(*types.Basic); ok && b.Kind() == types.Bool {
 							okReady = true
+							readyHelpers[cc.Static] = true
 						}
 					}
 				}
@@ -464,7 +472,8 @@ func runC09(p *Prog, l *Ledger) {
 		l.Check(len(bad3) == 0, "O3", key, p.At(s.call), "every closing path established endTime > nextUpdateTime under the lock and the readiness predicate", "the window can be closed early or when not ready", bad3...)
 	}
 
-	// readiness predicates: bool methods of components comparing against the window-size field with '>'
+	// readiness predicates: the bool helpers that guard a close (wherever they are declared), and the unexported bool
+	// methods of the components
 	for _, nt := range append(p.structTypes("limiter"), p.structTypes("limit")...) {
 		if len(fieldsOfType(nt, wptr)) != 1 {
 			continue
@@ -477,39 +486,18 @@ func runC09(p *Prog, l *Ledger) {
 			if b, ok := res.At(0).Type().Underlying().(*types.Basic); !ok || b.Kind() != types.Bool {
 				continue
 			}
-			key := p.Key(m) + "/readiness"
-			var bad []string
-			ntrue := 0
-			EnumPaths(m, 10000, func(pa *Path) bool {
-				rv := pa.ReturnValues()
-				if len(rv) != 1 {
-					return true
-				}
-				// truth of the returned value on this path
-				retTrue := false
-				v := strip(rv[0], false)
-				if b, ok := constBool(v); ok {
-					retTrue = b
-				} else if bo, ok := v.(*ssa.BinOp); ok {
-					// returned comparison itself: treat as "may be true" and inspect it as the last conjunct
-					retTrue = true
-					if !c09GtrWindowSize(bo, token.GTR, nt) && !c09HasGtrFact(pa, nt) {
-						bad = append(bad, fmt.Sprintf("%s: readiness can be true without 'count > windowSize'", p.At(bo)))
-					}
-					ntrue++
-					return true
-				}
-				if retTrue {
-					ntrue++
-					if !c09HasGtrFact(pa, nt) {
-						bad = append(bad, "readiness returns true on a path that has not established '> windowSize': "+joinWitness(p.DescribePath(pa)))
-					}
-				}
-				return true
-			})
-			if ntrue > 0 {
-				l.Check(len(bad) == 0, "O3", key, p.FuncPos(m), "readiness is true only when a quantity strictly exceeds the configured window size", "the readiness comparator is not a strict '>' against the window size", bad...)
-			}
+			readyHelpers[m] = true
+		}
+	}
+	var helpers []*ssa.Function
+	for m := range readyHelpers {
+		helpers = append(helpers, m)
+	}
+	sort.Slice(helpers, func(i, j int) bool { return p.Key(helpers[i]) < p.Key(helpers[j]) })
+	for _, m := range helpers {
+		bad, ntrue := c09ReadinessProblems(p, r, m)
+		if ntrue > 0 {
+			l.Check(len(bad) == 0, "O3", p.Key(m)+"/readiness", p.FuncPos(m), "readiness is true only when a quantity strictly exceeds the configured window size", "the readiness comparator is not a strict '>' against the window size", bad...)
 		}
 	}
 
@@ -517,31 +505,74 @@ func runC09(p *Prog, l *Ledger) {
 	c09Outcomes(p, l, r, wptr)
 }
 
-// c09GtrWindowSize: comparison "X > load(field of comp)" (or flipped).
-func c09GtrWindowSize(bo *ssa.BinOp, op token.Token, comp *types.Named) bool {
-	chk := func(x, y ssa.Value, o token.Token) bool {
-		if o != token.GTR {
-			return false
-		}
-		y = strip(y, true)
-		fr, _, ok := loadedField(y)
-		return ok && types.Identical(fr.Type, comp) && strings.Contains(strings.ToLower(fr.Name), "window")
+// c09IsCountVsSize: "x > y" where y is a load of a configuration field that is never written after construction and is
+// a size, not a time (its type is not the 64-bit type of the time fields): the configured window size. Identified by
+// role, not by name: the field may be renamed or grouped into a sub-struct. What is compared with it (the window's
+// sample count for the default limiter, the sample's in-flight for the windowed limit) is the code's readiness rule.
+func c09IsCountVsSize(p *Prog, r *c09Roles, x, y ssa.Value, op token.Token) bool {
+	if op != token.GTR {
+		return false
 	}
-	return chk(bo.X, bo.Y, bo.Op) || chk(bo.Y, bo.X, flipOp(bo.Op))
+	y = strip(y, true)
+	fr, _, ok := loadedField(y)
+	if !ok || !isIntegral(y.Type()) || !p.FieldImmutable(fr) {
+		return false
+	}
+	if b, ok := y.Type().Underlying().(*types.Basic); ok && (b.Kind() == types.Int64 || b.Kind() == types.Uint64) {
+		return false
+	}
+	return true
 }
 
-func c09HasGtrFact(pa *Path, comp *types.Named) bool {
-	for _, rel := range pa.Rels(-1) {
-		for _, rr := range []Rel{rel, {X: rel.Y, Y: rel.X, Op: flipOp(rel.Op)}} {
-			if rr.Op != token.GTR {
-				continue
-			}
-			if fr, _, ok := loadedField(strip(rr.Y, true)); ok && types.Identical(fr.Type, comp) && strings.Contains(strings.ToLower(fr.Name), "window") {
-				return true
-			}
+// c09GtrWindowSize: comparison "count > window size" (or flipped).
+func c09GtrWindowSize(p *Prog, r *c09Roles, bo *ssa.BinOp) bool {
+	return c09IsCountVsSize(p, r, bo.X, bo.Y, bo.Op) || c09IsCountVsSize(p, r, bo.Y, bo.X, flipOp(bo.Op))
+}
+
+// c09HasGtrFact: the path established "count > window size" before step (step < 0: anywhere).
+func c09HasGtrFact(p *Prog, r *c09Roles, pa *Path, before int) bool {
+	for _, rel := range pa.Rels(before) {
+		if c09IsCountVsSize(p, r, rel.X, rel.Y, rel.Op) || c09IsCountVsSize(p, r, rel.Y, rel.X, flipOp(rel.Op)) {
+			return true
 		}
 	}
 	return false
+}
+
+// c09ReadinessProblems: every path on which the bool function m returns true (or returns a comparison that may be true)
+// has established "count > window size". Returns the problems and the number of such paths.
+func c09ReadinessProblems(p *Prog, r *c09Roles, m *ssa.Function) ([]string, int) {
+	var bad []string
+	ntrue := 0
+	EnumPaths(m, 10000, func(pa *Path) bool {
+		rv := pa.ReturnValues()
+		if len(rv) != 1 {
+			return true
+		}
+		v := strip(rv[0], false)
+		if b, ok := constBool(v); ok {
+			if b {
+				ntrue++
+				if !c09HasGtrFact(p, r, pa, -1) {
+					bad = append(bad, "readiness returns true on a path that has not established 'count > window size': "+joinWitness(p.DescribePath(pa)))
+				}
+			}
+			return true
+		}
+		ntrue++
+		if bo, ok := v.(*ssa.BinOp); ok {
+			// the returned comparison is the last conjunct
+			if !c09GtrWindowSize(p, r, bo) && !c09HasGtrFact(p, r, pa, -1) {
+				bad = append(bad, fmt.Sprintf("%s: readiness can be true without 'count > window size'", p.At(bo)))
+			}
+			return true
+		}
+		if !c09HasGtrFact(p, r, pa, -1) {
+			bad = append(bad, "readiness may return true on a path that has not established 'count > window size': "+joinWitness(p.DescribePath(pa)))
+		}
+		return true
+	})
+	return bad, ntrue
 }
 
 // c09ParamIsWindow: every call site of f passes, for prm, the window that f's caller just installed in the window
@@ -695,18 +726,31 @@ func c09NextUpdate(p *Prog, pa *Path, comp *types.Named, v ssa.Value, step int) 
 
 func c09WindowBounds(comp *types.Named) (FieldRef, FieldRef) {
 	var minF, maxF FieldRef
-	st := comp.Underlying().(*types.Struct)
-	for i := 0; i < st.NumFields(); i++ {
-		n := strings.ToLower(st.Field(i).Name())
-		if strings.Contains(n, "window") && strings.Contains(n, "time") {
-			if strings.HasPrefix(n, "min") {
-				minF = FieldRef{comp, i, st.Field(i).Name()}
+	var scan func(nt *types.Named, depth int)
+	scan = func(nt *types.Named, depth int) {
+		st, ok := nt.Underlying().(*types.Struct)
+		if !ok {
+			return
+		}
+		for i := 0; i < st.NumFields(); i++ {
+			n := strings.ToLower(st.Field(i).Name())
+			if strings.Contains(n, "window") && strings.Contains(n, "time") {
+				if strings.HasPrefix(n, "min") && !minF.Valid() {
+					minF = FieldRef{nt, i, st.Field(i).Name()}
+				}
+				if strings.HasPrefix(n, "max") && !maxF.Valid() {
+					maxF = FieldRef{nt, i, st.Field(i).Name()}
+				}
 			}
-			if strings.HasPrefix(n, "max") {
-				maxF = FieldRef{comp, i, st.Field(i).Name()}
+			// settings grouped into a sub-struct of the component
+			if sub, ok := st.Field(i).Type().(*types.Named); ok && depth < 2 && sub.Obj().Pkg() == nt.Obj().Pkg() {
+				if _, isStruct := sub.Underlying().(*types.Struct); isStruct {
+					scan(sub, depth+1)
+				}
 			}
 		}
 	}
+	scan(comp, 0)
 	return minF, maxF
 }
 
@@ -778,6 +822,19 @@ func c09Fold(p *Prog, l *Ledger, r *c09Roles) {
 				// v == old requires fact NOT(prm < old) for min [keepOldWhen=GEQ], or (prm < old) for max [LSS]
 				rel := func(op token.Token) bool {
 					return pa.HoldsRel(-1, func(rr Rel) bool { return rr.Op == op && strip(rr.X, false) == ssa.Value(prm) && isOld(rr.Y, fr) })
+				}
+				// min(old, sample) / max(old, sample) through the builtin, math.Min/Max or a module helper classified as such
+				if name, args := (&prover{p: p, pa: pa, step: last}).mathCall(strip(v, false)); (name == "min" || name == "max") && len(args) == 2 {
+					a0, a1 := pa.Resolve(args[0], last), pa.Resolve(args[1], last)
+					operands := (isOld(a0, fr) && strip(a1, false) == ssa.Value(prm)) || (isOld(a1, fr) && strip(a0, false) == ssa.Value(prm))
+					want := "min"
+					if keepOldWhen == token.LSS {
+						want = "max"
+					}
+					if operands && name == want {
+						return ""
+					}
+					return fr.Name + " is " + name + "(" + valueString(a0) + ", " + valueString(a1) + "), want " + want + " of the old value and the sample"
 				}
 				if isOld(v, fr) {
 					if keepOldWhen == token.GEQ && (rel(token.GEQ) || rel(token.GTR)) {
